@@ -364,7 +364,7 @@ def run(ctx):
             run_cell(ctx, cell, sdir)
             if i % 200 == 0:
                 rec.sample(list(cell))
-    ndocs = ctx.pick(24, 300)
+    ndocs = ctx.pick(24, 4000)
     for j in range(ndocs):
         if not ctx.mine(j):
             continue
